@@ -39,7 +39,7 @@ CSize(c) == IF c = "c2" THEN 5 ELSE 3          \* c0, c1: equal size, different 
 Cat(ss) == FoldLeft(LAMBDA a, b : a \o b, <<>>, ss)
 
 (* ---- family "flat": one directory, every slot independently ------------ *)
-NodeChoices  == {"absent", "c0", "c1", "c2", "dir", "other"}
+NodeChoices  == {"absent", "c0", "c1", "c2", "dir", "dirm", "other"}
 EntryChoices == {"none", "d0", "d0x", "d1", "d2", "ign", "dupok", "dupbad", "dupbadx", "duptype"}
 
 FlatNodes(asg) ==
@@ -48,6 +48,8 @@ FlatNodes(asg) ==
         CASE c = "absent" -> <<>>
           [] c \in {"c0", "c1", "c2"} -> << Nd(<<n>>, "file", c, CSize(c), 50) >>
           [] c = "dir"   -> << DirNd(<<n>>, i + 10), Nd(<<n, "inner">>, "file", "c0", 3, 50) >>
+          [] c = "dirm"  -> \* a directory holding an unlisted file that is named like the top-level Manifest
+                            << DirNd(<<n>>, i + 10), Nd(<<n, "Manifest">>, "file", "c0", 3, 50) >>
           [] c = "other" -> << Nd(<<n>>, "other", "", 0, 0) >> ])
 
 FlatEntries(asg) ==
@@ -119,7 +121,8 @@ Scenarios ==
               xin \in {"none", "root", "d", "e", "both"}, xn \in {"absent", "c0", "c1", "c2"},
               ig \in {"no", "d", "da", "de"} }
 
-Subs == IF Family = "flat" THEN { <<>> } ELSE { <<>>, <<"d">>, <<"d", "e">> }
+(* flat: the whole tree, and the first slot as sub-path (it may be listed as a file yet be a directory) *)
+Subs == IF Family = "flat" THEN { <<>>, <<NameSeq[1]>> } ELSE { <<>>, <<"d">>, <<"d", "e">> }
 
 (* ------------------------------------------------------------------------ *)
 (* the algorithm                                                             *)
